@@ -372,7 +372,7 @@ def floors(tier):
            [('register', op, way) for op in ('add', 'sub', 'mul') for way in ('out', 'same')] + [('resize-wrap',), ('register-rounded',)] + \
            [('wide-from-fixed-point', True), ('wide-from-fixed-point', False), ('resize-wrap-wide',), ('register-wide-upshift',), ('register-uu-coarser-subtrahend',),
             ('register-function', 'dot'), ('register-function', 'one-variable'), ('register-from-wide-accumulator',),
-            ('register-far-apart-fractions',), ('register-from-wide-source-dropping-bits',), ('register-through-view',)]
+            ('register-far-apart-fractions',), ('register-from-wide-source-dropping-bits',), ('register-through-view',), ('register-element-operands',)]
 
 
 # ------------------------------------------------------------------------------------------ workload
@@ -628,6 +628,30 @@ def run_case(case, ctx):
             xa_.config.op_out = Fxp(None, True, 48, nft, overflow='wrap', rounding='floor')
             _try(lambda: xa_ + ya_)
             ctx.floor_hit(('register-far-apart-fractions',))
+        # (D) operands that are ELEMENTS of arrays (their codes are NumPy scalars, not arrays) whose exact raw result needs 64 bits or more, into wrap registers;
+        # an unsigned element minus an unsigned operand with a negative difference into registers with fewer fraction bits / of more than 64 bits
+        if mixed_digit == 0 and qxq_digit == 0:
+            we_ = rng.randint(36, 44)
+            le_, he_ = R.code_range(True, we_)
+            ae_ = Fxp([rng.choice([le_, he_, rng.randint(le_, he_) | 1]) for _ in range(3)], True, we_, rng.choice([0, 3]), raw=True)
+            be_ = Fxp([rng.choice([le_, he_, rng.randint(le_, he_) | 1]) for _ in range(3)], True, we_, rng.choice([0, 2]), raw=True)
+            um_ = Fxp([rng.randint(2 ** 50, 2 ** 52 - 1), 3, 1], False, 52, 6, raw=True)
+            sm_ = Fxp([-rng.randint(2 ** 49, 2 ** 51 - 1), 5], True, 52, 2, raw=True)
+            for nr2, fr2 in ((72, 5), (16, 0), (24, 6), (64, 0)):
+                for sg2 in (True, False):
+                    reg2_ = lambda: Fxp(None, sg2, nr2, fr2, overflow='wrap', rounding=r)
+                    _try(lambda: fm.mul(ae_[0], be_[1], out=reg2_()))
+                    _try(lambda: fm.mul(ae_[2], be_, out_like=reg2_()))
+                    if sg2:
+                        _try(lambda: fm.add(um_[0], sm_[0], out=reg2_()))
+                        _try(lambda: fm.sub(sm_[0], um_[0], out_like=reg2_()))
+            ue_ = Fxp([rng.randint(0, 2 ** 20), rng.randint(2 ** 30, 2 ** 40), 7], False, 44, 8, raw=True)
+            uf_ = Fxp([rng.randint(2 ** 41, 2 ** 43), 1], False, 44, 8, raw=True)
+            for nr2, fr2, sg2 in ((16, 0, True), (72, 4, False), (24, 6, True), (64, 2, False)):
+                for rr2 in ('trunc', 'floor', 'around', 'ceil'):
+                    _try(lambda: fm.sub(ue_[0], uf_[0], out=Fxp(None, sg2, nr2, fr2, overflow='wrap', rounding=rr2)))
+                    _try(lambda: fm.sub(ue_[1], uf_, out_like=Fxp(None, sg2, nr2, fr2, overflow='wrap', rounding=rr2)))
+            ctx.floor_hit(('register-element-operands',))
         # (B) sources of 64..96 bits whose python-integer codes have more than 53 significant bits but whose VALUE is small, moved into core wrap registers with
         # fewer fraction bits by every route: the dropped bits decide the rounding (they must not pass through a double)
         if mixed_digit == 2:
@@ -644,7 +668,21 @@ def run_case(case, ctx):
                 for rr_ in ('trunc', 'floor', 'around', 'ceil'):
                     nr_ = rng.choice([16, 24, 40, 52])
                     fr_ = fw_ - drop_
-                    mkreg = lambda shp=None: Fxp(np.zeros(shp) if shp else None, rng.random() < 0.7, nr_, fr_, overflow='wrap', rounding=rr_)
+                    sgr_ = rng.random() < 0.7
+                    mkreg = lambda shp=None: Fxp(np.zeros(shp) if shp else None, sgr_, nr_, fr_, overflow='wrap', rounding=rr_)
+                    # equal() and like() are not store events of their own for the judges: compared here with the residue of the rounded value
+                    for nm_, f_ in (('equal', lambda: mkreg().equal(srcw)), ('like', lambda: srcw.like(mkreg())), ('equal-array', lambda: mkreg((3,)).equal(srca))):
+                        try:
+                            got_ = [int(c_) for c_ in np.asarray(f_().val, dtype=object).ravel().tolist()]
+                        except Exception as e_:
+                            ctx.violation('raises', '%s of a %d-bit source into a wrap register raised %s' % (nm_, ww_, type(e_).__name__), key='wrap.raises')
+                            continue
+                        srcs_ = [code_w] if nm_ != 'equal-array' else [code_w, 1, -code_w]
+                        want_ = [R.wrap(R.round_exact(F(c_) / F(2) ** drop_, rr_), sgr_, nr_) for c_ in srcs_]
+                        if got_ != want_:
+                            ctx.violation('not_residue', '%s: fxp-s%d/%d code %d into fxp-%s%d/%d %s/wrap: register holds %s, the residue of the rounded value is %s' % (
+                                nm_, ww_, fw_, code_w, 's' if sgr_ else 'u', nr_, fr_, rr_, got_, want_), key='wrap.equal_like')
+                        ctx.judged(('register-equal-like', nm_, rr_), True, None)
                     _try(lambda: mkreg().equal(srcw))
                     _try(lambda: Fxp(srcw, like=mkreg()))
                     _try(lambda: srcw.like(mkreg()))
